@@ -873,6 +873,43 @@ def verify(fid, index=None, loaded=None, timeout_ms=None):
         except Exception as e:  # noqa: BLE001
             r['refute_error'] = f'{type(e).__name__}: {e}'
 
+    # thorough tier: a sample of the obligations z3 discharged is handed to the other installed solvers (SMT-LIB dump);
+    # 'unsat' there is an independent confirmation, 'sat' a disagreement between back ends (engine error), anything else nothing
+    if os.environ.get('PYVC_SECOND_BACKEND') == '1':
+        sb = {'checked': 0, 'confirmed_unsat': 0, 'no_answer': 0, 'disagree': []}
+        sample = [(ob, r) for ob, r in zip(ctx.obligations, results) if r['verdict'] == 'proved' and not getattr(ob, 'trivial', False)]
+        step = max(1, len(sample) // 6)
+        for ob, r in sample[::step][:6]:
+            ctx.axiom_limit = getattr(ob, 'n_axioms', None) if ob.kind.startswith('lemma') else None
+            try:
+                s = _solver(ctx, ob.hyps, ob.goal, 1000)
+                smt = '(set-logic ALL)\n' + s.sexpr() + '\n(check-sat)\n'
+            except z3.Z3Exception:
+                continue
+            finally:
+                ctx.axiom_limit = None
+            sb['checked'] += 1
+            answered = False
+            for name, cmd in (('cvc5-1.0.3', ['/usr/bin/cvc5', '--strings-exp', '--tlimit=8000']), ('z3-4.8.12', ['/usr/bin/z3', '-T:8'])):
+                try:
+                    with tempfile.NamedTemporaryFile('w', suffix='.smt2', delete=False) as fh:
+                        fh.write(smt)
+                        fn = fh.name
+                    o = subprocess.run(cmd + [fn], capture_output=True, text=True, timeout=15).stdout.strip()
+                    os.unlink(fn)
+                except Exception:
+                    continue
+                if o.startswith('unsat'):
+                    sb['confirmed_unsat'] += 1
+                    answered = True
+                    break
+                if o.startswith('sat'):
+                    sb['disagree'].append({'obligation': ob.id, 'backend': name})
+                    answered = True
+                    break
+            if not answered:
+                sb['no_answer'] += 1
+        out['second_backend'] = sb
     # canary: a false postcondition must not be provable
     canary = check_valid(ctx, list(info['entry_pc']), z3.BoolVal(False), 2000, use_cli=False, full=False)[0]
     out['canary_false_provable'] = (canary == 'proved')
